@@ -194,6 +194,76 @@ func runC16(c *Ctx) {
 			c.Unk("C16.K5-watcher-needs-subscription", "announce › go watch", token.NoPos, "watcher is never started with a go statement")
 		}
 	}
+	// K5d: Close waits for the watcher only where there is one: the wait is under a test of the channel itself, or of a
+	// receiver field that is set only where the channel is made (a field set for every subscribed receiver says
+	// nothing about a watcher: one built on a supplied topic without a host has a subscription and no watcher)
+	if waitRecv != nil {
+		var mkBlocks []*ssa.BasicBlock
+		type fieldStore struct {
+			name string
+			b    *ssa.BasicBlock
+		}
+		var stores []fieldStore
+		for _, f := range c.Funcs(pkg) {
+			instrsDeep(f.SSA, func(g *ssa.Function, in ssa.Instruction) {
+				st, ok := in.(*ssa.Store)
+				if !ok {
+					return
+				}
+				a := c.E(st.Addr)
+				if a.Op != "field" || fieldOwner(a) != "Receiver" {
+					return
+				}
+				if k, isC := st.Val.(*ssa.Const); isC && k.Value == nil {
+					return // nil / zero
+				}
+				if a.Name == "watchDone" {
+					mkBlocks = append(mkBlocks, st.Block())
+				}
+				stores = append(stores, fieldStore{a.Name, st.Block()})
+			})
+		}
+		okGuard, why := false, "the wait is under no test of a receiver field"
+		for _, fct := range c.FactsAt(waitRecv.Block()) {
+			m, isNilTest := Match(EqNil(Field("", Any())), fct.Cond)
+			_ = m
+			if !isNilTest || fct.Val {
+				continue
+			}
+			g := strip(fct.Cond.Args[0])
+			if g == nil || g.Op != "field" || fieldOwner(g) != "Receiver" {
+				continue
+			}
+			if g.Name == "watchDone" {
+				okGuard = true
+				break
+			}
+			only := len(mkBlocks) > 0
+			nSt := 0
+			for _, fs := range stores {
+				if fs.name != g.Name {
+					continue
+				}
+				nSt++
+				under := false
+				for _, mb := range mkBlocks {
+					if mb == fs.b || mb.Dominates(fs.b) {
+						under = true
+					}
+				}
+				if !under {
+					only = false
+				}
+			}
+			if only && nSt > 0 {
+				okGuard = true
+				break
+			}
+			why = "the wait is under " + g.Name + " != nil, and " + g.Name + " is also set where no watcher is started"
+		}
+		c.Check(okGuard, "C16.K5-watcher-needs-subscription", "announce.(*Receiver).Close › waits only where a watcher exists", waitRecv.Pos(),
+			"the wait is under a test that holds only for receivers whose watcher was started", why+": Close of such a receiver blocks forever")
+	}
 	// K5b: whoever creates the channel Close waits on also starts the goroutine that closes it — on every path
 	if watchFn != nil && waitRecv != nil {
 		nMk := 0
@@ -275,7 +345,7 @@ func runC16(c *Ctx) {
 		c.Check(okAll, "C16.K5-watcher-needs-subscription", c.short(watchEntry.String())+" › closes the channel Close waits on, on every exit", watchEntry.Pos(),
 			"every way out of the watcher closes the channel Close waits on", "the watcher can return without closing the channel Close waits on ("+path+"): Close blocks forever")
 	}
-	c.Floor("C16.K5-watcher-needs-subscription", 3)
+	c.Floor("C16.K5-watcher-needs-subscription", 4)
 	receiverCloseSignals(c, "C16.K2-close-signals-done")
 	c.Floor("C16.K2-close-signals-done", 1)
 
